@@ -645,4 +645,258 @@ theorem ack_then_initial {s : State} (h : Inv s) {a p o : Nat} {conf : Option Bo
     rw [hrem]
     simp only [hobm.2, newSub]
 
+/-! ## re-subscription replaces and re-times; cancellation removes -/
+
+theorem findSub_renew {subs : List Sub} {a p : Nat} {cov : Sub} (L : Nat) (cf : Bool)
+    (due : Option (Nat × Nat)) (hfs : findSub subs a p = some cov) :
+    findSub (renewSubs subs cov.sid L cf due) a p =
+      some { cov with lifetime := L, confirmed := cf, due := due } := by
+  unfold findSub renewSubs at *
+  rw [List.find?_map]
+  have hcomp : ((fun c : Sub => c.addr == a && c.pid == p) ∘
+      (fun c : Sub => if c.sid == cov.sid then { c with lifetime := L, confirmed := cf, due := due } else c))
+      = (fun c : Sub => c.addr == a && c.pid == p) := by
+    funext c
+    simp only [Function.comp]
+    split <;> rfl
+  rw [hcomp, hfs]
+  simp
+
+/-- a SubscribeCOV for a key that is already listed does not add a record: the keys of the
+    object's list are unchanged, and the one record of that key now carries the requested
+    lifetime, the requested confirmed flag and a deadline counted from NOW -/
+theorem resubscribe_replaces {s : State} {a p o : Nat} {conf : Option Bool} {life : Option Nat}
+    {ob : Obj} {d : Det} {cov : Sub}
+    (hfind : findObj s o = some ob) (hcov : ob.supportsCov = true) (hd : ob.det = some d)
+    (hnc : (conf.isNone && life.isNone) = false) (hfs : findSub d.subs a p = some cov) :
+    ∃ ob' d', findObj (subscribe s a p o conf life).1 o = some ob' ∧ ob'.det = some d' ∧
+      d'.subs.map key = d.subs.map key ∧
+      findSub d'.subs a p = some { cov with
+        lifetime := life.getD 0, confirmed := conf.getD false,
+        due := if life.getD 0 ≠ 0 then some (s.now + life.getD 0 * usPerSec, s.seq) else none } := by
+  have hget : getDet s ob = some (d, s.nextGen) := by unfold getDet; rw [hd]
+  rw [subscribe_renew_eq hfind hcov hget hnc hfs]
+  refine ⟨_, renewedDet s d cov conf life,
+    findObj_setObj_self (f := fun ob => { ob with det := some (renewedDet s d cov conf life) }) hfind
+      (fun _ => rfl), rfl, ?_, ?_⟩
+  · exact map_key_renew _ _ _ _ _
+  · unfold renewedDet
+    simp only
+    rw [findSub_renew _ _ _ hfs]
+    unfold armLifetime
+    split <;> rfl
+
+theorem key_inj_of_nodup {l : List Sub} (hn : (l.map key).Nodup) {x y : Sub} (hx : x ∈ l) (hy : y ∈ l)
+    (e : key x = key y) : x = y := by
+  induction l with
+  | nil => cases hx
+  | cons z rest ih =>
+    simp only [List.map_cons, List.nodup_cons, List.mem_map, not_exists, not_and] at hn
+    rcases List.mem_cons.mp hx with rfl | hx' <;> rcases List.mem_cons.mp hy with rfl | hy'
+    · rfl
+    · exact (hn.1 y hy' e.symm).elim
+    · exact (hn.1 x hx' e).elim
+    · exact ih hn.2 hx' hy'
+
+/-- a cancellation (both optional parameters absent) for an object that supports COV is
+    acknowledged and afterwards no record with that key is listed for the object -/
+theorem cancel_removes {s : State} (h : Inv s) {a p o : Nat} {ob : Obj}
+    (hfind : findObj s o = some ob) (hcov : ob.supportsCov = true)
+    (hcrit : ob.det.isSome ∨ ob.crit.isSome) :
+    (subscribe s a p o none none).2 = [.ack a] ∧
+    ∀ c, Listed (subscribe s a p o none none).1 o c → ¬ (c.addr = a ∧ c.pid = p) := by
+  obtain ⟨d, ng, hget⟩ : ∃ d ng, getDet s ob = some (d, ng) := by
+    unfold getDet
+    cases hd : ob.det with
+    | some d => exact ⟨d, _, rfl⟩
+    | none =>
+      cases hc : ob.crit with
+      | some c => exact ⟨_, _, rfl⟩
+      | none => simp [hd, hc] at hcrit
+  have hdok := (getDet_ok h (findObj_mem hfind).1 hget).1
+  have huniq := uniq_of_find h hfind
+  unfold subscribe
+  simp only [hfind, hcov, hget, Option.isNone_none, Bool.and_self, Bool.not_true, Bool.false_eq_true,
+    if_false, if_true]
+  cases hfs : findSub d.subs a p with
+  | some cov =>
+    simp only
+    refine ⟨trivial, ?_⟩
+    rintro c ⟨ob', hob', hido, d', hd', hc⟩ ⟨hca, hcp⟩
+    simp only [setObj, List.mem_map] at hob'
+    obtain ⟨x, hx, rfl⟩ := hob'
+    by_cases hxo : x.id = o
+    · have hb : (x.id == o) = true := by simpa using hxo
+      simp only [hb, if_true] at hd'
+      split at hd'
+      · cases hd'
+      · cases hd'
+        simp only [removeSid, List.mem_filter, bne_iff_ne, ne_eq] at hc
+        obtain ⟨hcm, hca', hcp'⟩ := findSub_some hfs
+        have : c = cov := key_inj_of_nodup hdok.keys hc.1 hcm (by simp [key, hca, hcp, hca', hcp'])
+        exact hc.2 (by rw [this])
+    · have hb : (x.id == o) = false := by simpa using hxo
+      simp only [hb, Bool.false_eq_true, if_false] at hido
+      exact hxo hido
+  | none =>
+    simp only
+    refine ⟨trivial, ?_⟩
+    rintro c ⟨ob', hob', hido, d', hd', hc⟩ ⟨hca, hcp⟩
+    simp only [setObj, List.mem_map] at hob'
+    obtain ⟨x, hx, rfl⟩ := hob'
+    by_cases hxo : x.id = o
+    · have hb : (x.id == o) = true := by simpa using hxo
+      simp only [hb, if_true, Option.some.injEq] at hd'
+      subst hd'
+      exact findSub_none_key hfs (List.mem_map.mpr ⟨c, hc, by simp [key, hca, hcp]⟩)
+    · have hb : (x.id == o) = false := by simpa using hxo
+      simp only [hb, Bool.false_eq_true, if_false] at hido
+      exact hxo hido
+
+/-! ## a qualifying change reaches every listed subscriber exactly once -/
+
+theorem run_exec_last {s : State} (h : Inv s) {q : List Deferred} {o : Nat} {ob : Obj} {d : Det}
+    (hdq : s.deferred = q ++ [.exec o d.gen]) (hfind : findObj s o = some ob) (hd : ob.det = some d) :
+    ∃ pre, (run s).2 = pre ++ d.subs.map (notifyOf s.now ob) := by
+  unfold run
+  rw [hdq, runItems_append]
+  refine ⟨(runItems { s with deferred := [] } q).2, ?_⟩
+  simp only
+  congr 1
+  have h0 : InvAt (s.now + 1) { s with deferred := [] } := h
+  have hq := quiet_runItems q h0
+  have hfind0 : findObj { s with deferred := [] } o = some ob := hfind
+  obtain ⟨ob', hfind', hcore⟩ := findObj_quiet hq h0 hfind0
+  have hdc := hcore.det
+  rw [hd] at hdc
+  cases hd' : ob'.det with
+  | none => rw [hd'] at hdc; exact hdc.elim
+  | some d' =>
+    rw [hd'] at hdc
+    obtain ⟨hs, hg, _⟩ := hdc
+    have hnow : (runItems { s with deferred := [] } q).1.now = s.now := hq.now
+    simp only [runItems, runItem, hfind', hd', ← hg, bne_self_eq_false, Bool.false_eq_true, if_false,
+      List.append_nil, send_all, hs, hnow]
+    apply List.map_congr_left
+    intro c _
+    simp only [notifyOf, hcore.id, hcore.pv, hcore.flags]
+
+theorem writePv_obj {s : State} {o : Nat} {ob : Obj} {d : Det} {c : Crit} (v : Int)
+    (hfind : findObj s o = some ob) (hd : ob.det = some d) (hc : ob.crit = some c) :
+    findObj (writePv s o v) o = some { ob with pv := v, det := some (pvChange ob c d v).1 } := by
+  unfold writePv
+  rw [hfind]
+  simp only [hd, hc, applyChange]
+  rw [← hc]
+  exact find_map_self (f := fun x => { x with pv := v, det := some (pvChange ob c d v).1 })
+    hfind (fun _ => rfl)
+
+/-- if a write of presentValue deferred an execution (by `qualifying_change_*`: iff the change
+    qualifies), then the next drain ends with exactly one notification per record of the
+    object's list — confirmed flag of the record, the NEW value, the current flags, the
+    remaining lifetime — whatever else was pending before -/
+theorem change_notifies_all {s : State} (h : Inv s) {o : Nat} {ob : Obj} {d : Det} {c : Crit} (v : Int)
+    (hfind : findObj s o = some ob) (hd : ob.det = some d) (hc : ob.crit = some c)
+    (hq : (writePv s o v).deferred = s.deferred ++ [.exec o d.gen]) :
+    ∃ pre, (run (writePv s o v)).2 = pre ++ d.subs.map (fun x =>
+      Out.notify x.addr x.pid o x.confirmed v ob.flags (remainingSpec s.now x : Int)) := by
+  have hinv' : Inv (writePv s o v) := inv_apply h (.writePv o v)
+  have hobj := writePv_obj v hfind hd hc
+  have hsc := sameCore_pvChange ob c d v
+  have hq' : (writePv s o v).deferred = s.deferred ++ [.exec o (pvChange ob c d v).1.gen] := by
+    rw [hq, hsc.2.1]
+  obtain ⟨pre, hpre⟩ := run_exec_last hinv' hq' hobj rfl
+  refine ⟨pre, ?_⟩
+  rw [hpre, hsc.1]
+  congr 1
+  apply List.map_congr_left
+  intro x hx
+  have hxm : x ∈ (pvChange ob c d v).1.subs := by rw [hsc.1]; exact hx
+  have := notification_content hinv' (findObj_mem hobj).1 rfl hxm
+  rw [this, writePv_now]
+  simp [(findObj_mem hfind).2]
+
+/-! ## the regenerated tables give the in-scope object types the behaviour the model assumes -/
+
+def critIncr : Crit := { incr := true, pulse := false, trackPv := true, trackFlags := true, trackInc := true }
+def critGeneric : Crit := { incr := false, pulse := false, trackPv := true, trackFlags := true, trackInc := false }
+def critPulse : Crit := { incr := true, pulse := true, trackPv := true, trackFlags := true, trackInc := false }
+
+/-- what the property says about the object types it names: analog → increment rule,
+    binary / multi-state → any change, pulse converter → increment rule + periodic -/
+def expectedScope : List (String × Crit) := [
+  ("analogInput", critIncr), ("analogOutput", critIncr), ("analogValue", critIncr),
+  ("largeAnalogValue", critIncr), ("integerValue", critIncr), ("positiveIntegerValue", critIncr),
+  ("binaryInput", critGeneric), ("binaryOutput", critGeneric), ("binaryValue", critGeneric),
+  ("multiStateInput", critGeneric), ("multiStateOutput", critGeneric), ("multiStateValue", critGeneric),
+  ("pulseConverter", critPulse)]
+
+/-- obligation on the GENERATED table (re-checked whenever criteria_type_map, the tracked /
+    reported properties, the filters or `_object_supports_cov` change in the tree) -/
+theorem gen_scope_ok :
+    expectedScope.all (fun nc => typeInfo nc.1 == .info true (some nc.2)) = true := by
+  decide +kernel
+
+/-- every criteria class `criteria_type_map` uses is either covered by the model or one of the
+    four known classes outside the property's scope -/
+theorem gen_criteria_known :
+    Gen.Cov.types.all (fun t => match t.criteria with
+      | none => true
+      | some cn => (Gen.Cov.criteria.find? (fun r => r.name == cn)).any (fun r =>
+          rowInScope r || ["AccessPointCriteria", "CredentialDataInputCriteria", "LoadControlCriteria",
+                           "AccessDoorCriteria"].contains r.name)) = true := by
+  decide +kernel
+
+/-! ## non-vacuity: concrete instances (these are tests of the statements' hypotheses, not the theorems) -/
+
+def exObjs : List Obj := [
+  { id := 0, supportsCov := true, crit := some critIncr, pv := 160, flags := 0, inc := 16, period := 0, det := none },
+  { id := 1, supportsCov := true, crit := some critGeneric, pv := 0, flags := 0, inc := 0, period := 0, det := none },
+  { id := 2, supportsCov := true, crit := some critPulse, pv := 0, flags := 0, inc := 160, period := 10, det := none }]
+
+example : ConfigOk exObjs := by decide
+
+/-- subscribe (confirmed, 60 s) → ack, initial notification with remaining 60; a sub-increment
+    step is silent, a step of exactly the increment is reported once; renewal to unconfirmed /
+    indefinite is acknowledged and re-notified with remaining 0; cancel; no report afterwards -/
+example : (applyAll { init exObjs with now := 125000 } [
+      .subscribe 1 7 0 (some true) (some 60), .run,
+      .writePv 0 175, .run,
+      .writePv 0 176, .writePv 0 160, .writePv 0 176, .run,
+      .step 20000000,
+      .subscribe 1 7 0 (some false) (some 0), .run,
+      .writeFlags 0 2, .run,
+      .subscribe 1 7 0 none none, .run,
+      .writePv 0 500, .run]).2 =
+    [.ack 1, .notify 1 7 0 true 160 0 60,
+     .notify 1 7 0 true 176 0 60,
+     .ack 1, .notify 1 7 0 false 176 0 0,
+     .notify 1 7 0 false 176 2 0,
+     .ack 1] := by decide +kernel
+
+/-- lifetime 5 s: reported at 4.75 s with remaining 1 (not 0), nothing after 5 s; the pulse
+    converter reports periodically at whole multiples of its period while subscribed -/
+example : (applyAll { init exObjs with now := 1000000000125000 } [
+      .subscribe 0 1 1 (some false) (some 5), .subscribe 2 1 2 (some false) none, .run,
+      .step 4750000, .writePv 1 1, .run,
+      .step 250000, .writePv 1 0, .run,
+      .step 5000000]).2 =
+    [.ack 0, .ack 2, .notify 0 1 1 false 0 0 5, .notify 2 1 2 false 0 0 0,
+     .notify 0 1 1 false 1 0 1,
+     .notify 2 1 2 false 0 0 0] := by decide +kernel
+
+example : Inv { init exObjs with now := 125000 } := inv_init (by decide) _
+
+/-- the hypotheses of `ack_then_initial`, `resubscribe_replaces`, `cancel_removes`,
+    `qualifying_change_analog` are met by the state after the first subscription -/
+def exS : State := (applyAll { init exObjs with now := 125000 } [.subscribe 1 7 0 (some true) (some 60), .run]).1
+
+example : (match findObj exS 0 with
+    | some ob => ob.supportsCov && ob.crit == some critIncr &&
+        (match ob.det with
+         | some d => !d.triggered && d.prev == some 160 &&
+             (match findSub d.subs 1 7 with | some cov => cov.lifetime == 60 | none => false)
+         | none => false)
+    | none => false) = true := by decide +kernel
+
 end BacVerif.C16
